@@ -1,16 +1,188 @@
-/- BDS 6,5 — crates/rs1090/src/decode/bds/bds65.rs   (STUB: not modelled yet) -/
+/-
+BDS 6,5 aircraft operation status — crates/rs1090/src/decode/bds/bds65.rs
+
+`AircraftOperationStatus` is an enum with its own 3-bit discriminant (`id_type = "u8", bits = "3"`).
+It is reached in two ways:
+
+* `ME::BDS65` (`#[deku(id = "31")]`, DF17/18): the discriminant is ME bits 5..8, right after the
+  type code.
+* the Comm-B hypothesis `AircraftOperationStatus::try_from(buf)` on the 7 MB bytes: the
+  discriminant is then **bits 0..3 of the buffer**, i.e. the top three bits of the type code.  The
+  call is guarded by `tc == 31`, so the discriminant is always 7 ⇒ `Reserved`, which consumes
+  3 − 3 + 5 + 40 = 45 bits; `45 / 8 = 5 ≠ 7` ⇒ `Parse("Too much data")`.  The hypothesis therefore
+  never succeeds; `readEnum` is the same reader and `tryFromBytes` produces the error.
+
+Variants:
+* 0 `Airborne(OperationStatusAirborne)`: capability class (16 bits, two `assert_eq = 0` reserved
+  pairs), operational mode (8 bits, one `assert_eq = 0` pair), one pad byte, `ADSBVersionAirborne`.
+* 1 `Surface(OperationStatusSurface)`: capability class (12 bits, one assert), L/W (4), operational
+  mode (8), GPS antenna offset (8), `ADSBVersionSurface`.
+* 2..=7 `Reserved(u8 /*5 bits*/, [u8; 5])`, an `id_pat` variant: its first field is read after
+  `seek_last_read()`, which rewinds one *byte* (to the start of the ME field in DF17/18, so the
+  5-bit field re-reads the type code) and the array then covers ME bits 5..45.
+
+Both version enums have a 3-bit discriminant at ME bits 40..43; 0 ↦ `Empty {}` (nothing read),
+1 / 2 ↦ 13 more bits, 3..=7 ↦ `Reserved { id: u8 }`, again an `id_pat` variant: `seek_last_read()`
+rewinds to ME bit 40 and `id` is the whole byte 40..48 (version in its top three bits).
+
+Everything except the version is `#[serde(skip)]`; the version enums are internally tagged
+(`tag = "version"`) and flattened, `AircraftOperationStatus` is `untagged`, and the reserved
+subtypes serialise as an empty map (`serialize_reserved`).
+-/
 import Rs1090.Model.Decode.Common
 namespace Rs1090.Model.Bds65
 open Rs1090 Rs1090.Model
 
-/-- STUB -/
-def modelled : Bool := false
+def modelled : Bool := true
 
-def read : R SerFields := R.fail .other
+/-- `#[deku(bits = "2", assert_eq = "0")]` -/
+def reserved2 : R Unit := do
+  let v ← bits 2
+  if v != 0 then R.fail .assertion else pure ()
+
+/-- `CapabilityClassAirborne` (16 bits; every field is skipped by serde) -/
+def capabilityClassAirborne : R Unit := do
+  reserved2
+  let _acas ← flag
+  let _cdti ← flag
+  reserved2
+  let _arv ← flag
+  let _ts ← flag
+  let _tc ← bits 2
+  pad 6
+
+/-- `CapabilityClassSurface` (12 bits) -/
+def capabilityClassSurface : R Unit := do
+  reserved2
+  let _poe ← flag
+  let _es1090 ← flag
+  pad 2
+  let _b2low ← flag
+  let _uatIn ← flag
+  let _nacv ← bits 3
+  let _nicc ← bits 1
+
+/-- `OperationalMode` (8 bits) -/
+def operationalMode : R Unit := do
+  reserved2
+  let _tcasRa ← flag
+  let _ident ← flag
+  let _atc ← flag
+  let _saf ← flag
+  let _sda ← bits 2
+
+/-- `ADSBVersion*::Reserved { id: u8 }` (`id_pat = "3..=7"`): rewind, then a whole byte -/
+def versionReserved : R Fields := do
+  seekLast
+  let id ← bits 8
+  pure [ fld (key! "version") (.lit (key! "3to7")), fld (key! "id") (jnat id) ]
+
+/-- `AirborneV1` -/
+def airborneV1 : R Fields := do
+  let nics ← bits 1
+  let nacp ← bits 4
+  let baq ← bits 2
+  let sil ← bits 2
+  let bai ← bits 1
+  let hrd ← bits 1
+  pad 2
+  pure [ fld (key! "version") (.lit (key! "1")),
+         fld (key! "NICs") (jnat nics), fld (key! "NACp") (jnat nacp), fld (key! "BAQ") (jnat baq),
+         fld (key! "SIL") (jnat sil), fld (key! "BAI") (jnat bai), fld (key! "HRD") (jnat hrd) ]
+
+/-- `AirborneV2` -/
+def airborneV2 : R Fields := do
+  let nica ← bits 1
+  let nacp ← bits 4
+  let gva ← bits 2
+  let sil ← bits 2
+  let bai ← bits 1
+  let hrd ← bits 1
+  let sils ← bits 1
+  pad 1
+  pure [ fld (key! "version") (.lit (key! "2")),
+         fld (key! "NICa") (jnat nica), fld (key! "NACp") (jnat nacp), fld (key! "GVA") (jnat gva),
+         fld (key! "SIL") (jnat sil), fld (key! "BAI") (jnat bai), fld (key! "HRD") (jnat hrd),
+         fld (key! "SILs") (jnat sils) ]
+
+/-- `SurfaceV1` -/
+def surfaceV1 : R Fields := do
+  let nics ← bits 1
+  let nacp ← bits 4
+  pad 2
+  let sil ← bits 2
+  let tah ← bits 1
+  let hrd ← bits 1
+  pad 2
+  pure [ fld (key! "version") (.lit (key! "1")),
+         fld (key! "NICs") (jnat nics), fld (key! "NACp") (jnat nacp), fld (key! "SIL") (jnat sil),
+         fld (key! "TAH") (jnat tah), fld (key! "HRD") (jnat hrd) ]
+
+/-- `SurfaceV2` -/
+def surfaceV2 : R Fields := do
+  let nica ← bits 1
+  let nacp ← bits 4
+  pad 2
+  let sil ← bits 2
+  let tah ← bits 1
+  let hrd ← bits 1
+  let sils ← bits 1
+  pad 1
+  pure [ fld (key! "version") (.lit (key! "2")),
+         fld (key! "NICa") (jnat nica), fld (key! "NACp") (jnat nacp), fld (key! "SIL") (jnat sil),
+         fld (key! "TAH") (jnat tah), fld (key! "HRD") (jnat hrd), fld (key! "SILs") (jnat sils) ]
+
+/-- `Empty {}` under `tag = "version"`, rename "0": only the tag -/
+def versionEmpty : Fields := [ fld (key! "version") (.lit (key! "0")) ]
+
+/-- `ADSBVersionAirborne` -/
+def versionAirborne : R Fields := do
+  let v ← enumId 3
+  if v == 0 then pure versionEmpty
+  else if v == 1 then airborneV1
+  else if v == 2 then airborneV2
+  else versionReserved
+
+/-- `ADSBVersionSurface` -/
+def versionSurface : R Fields := do
+  let v ← enumId 3
+  if v == 0 then pure versionEmpty
+  else if v == 1 then surfaceV1
+  else if v == 2 then surfaceV2
+  else versionReserved
+
+/-- `OperationStatusAirborne` -/
+def airborne : R Fields := do
+  capabilityClassAirborne
+  operationalMode
+  pad 8                      -- `pad_bytes_before = "1"`
+  versionAirborne
+
+/-- `OperationStatusSurface` -/
+def surface : R Fields := do
+  capabilityClassSurface
+  let _lw ← bits 4
+  operationalMode
+  let _gps ← bits 8
+  versionSurface
+
+/-- `Reserved(#[deku(bits = "5")] u8, [u8; 5])` -/
+def reservedSubtype : R Fields := do
+  seekLast
+  let _id ← bits 5
+  let _unused ← bytesN 5
+  pure []
+
+/-- the `AircraftOperationStatus` enum from its 3-bit discriminant on -/
+def read : R SerFields := do
+  let st ← enumId 3
+  let fs ← (if st == 0 then airborne else if st == 1 then surface else reservedSubtype)
+  pure (.ok fs)
 
 end Rs1090.Model.Bds65
 
 namespace Rs1090.Model.Bds65
-/-- the whole `AircraftOperationStatus` enum read from the start of a buffer (Comm-B hypothesis) — STUB -/
-def readEnum : R SerFields := R.fail .other
+/-- the whole `AircraftOperationStatus` enum read from the start of a buffer (Comm-B hypothesis):
+    the same deku reader; `Commb.hypo` wraps it in `tryFromBytes` (the `amt_read / 8 != len` test) -/
+def readEnum : R SerFields := read
 end Rs1090.Model.Bds65
